@@ -15,6 +15,7 @@ def microName : Micro → String
   | .setH _ => "sh.set.after_handler"
   | .setD _ => "sh.set.after_data"
   | .work => "W"
+  | .nreg _ _ => "N"
   | .dIntr => "sh.dtor.after_set_interrupter"
   | .dStop1 => "sh.dtor.after_stop1"
   | .dH0 => "sh.dtor.after_handler0"
@@ -67,6 +68,10 @@ def parseMacro (t : String) : Option Macro :=
   | ["C"] => some .ctor
   | ["D"] => some .dtor
   | ["W"] => some .work
+  | ["N", h, d] =>
+    match h.toNat?, d.toNat? with
+    | some h, some d => if h ≤ 7 && d ≤ 7 then some (.nreg h d) else none
+    | _, _ => none
   | ["R", h, d] =>
     match h.toNat?, d.toNat? with
     | some h, some d => if h ≤ 7 && d ≤ 7 then some (.reg h d) else none
@@ -92,6 +97,7 @@ def parseMode (t : String) : Option Mode :=
     | "closed" => some false
     | "full" => some false
     | "ro" => some false
+    | "part" => some false
     | _ => none
   match t.splitOn "/" with
   | [a] => (sem? a).map (fun x => ⟨x, true⟩)
